@@ -26,6 +26,25 @@ type callResult struct {
 	bits     []uint64
 	problems []string // failing clauses other than the value
 	panicMsg string
+	// the slice the call returned and the src slice it was given (for the
+	// ownership ledger)
+	outF, srcF []float64
+	outC, srcC []complex128
+}
+
+func (r *callResult) own(out, src any) {
+	switch o := out.(type) {
+	case []float64:
+		r.outF = o
+	case []complex128:
+		r.outC = o
+	}
+	switch s := src.(type) {
+	case []float64:
+		r.srcF = s
+	case []complex128:
+		r.srcC = s
+	}
 }
 
 type histMethod struct {
@@ -79,6 +98,7 @@ func r2rCall(f func(obj any) func(dst, src []float64) []float64) func(obj any, n
 			}
 		}
 		res.bits = vrt.Bits(out)
+		res.own(out, src)
 		return
 	}
 }
@@ -137,6 +157,7 @@ func c2cCall(f func(t *fourier.CmplxFFT, dst, src []complex128) []complex128) fu
 			res.problems = append(res.problems, "dst-not-fully-written")
 		}
 		res.bits = bitsOfC(out)
+		res.own(out, src)
 		return
 	}
 }
@@ -175,6 +196,7 @@ var histTypes = []histType{
 					res.problems = append(res.problems, "dst-not-fully-written")
 				}
 				res.bits = bitsOfC(out)
+				res.own(out, src)
 				return
 			}},
 			{"FFT.Sequence", false, func(obj any, n int, raw []float64, mode int) (res callResult) {
@@ -211,6 +233,7 @@ var histTypes = []histType{
 					}
 				}
 				res.bits = vrt.Bits(out)
+				res.own(out, src)
 				return
 			}},
 		},
@@ -286,6 +309,7 @@ func histLen(r *vrt.Rand, minN, big int) int {
 func checkHistory(c *vrt.Ctx) {
 	checkStructuredHistories(c)
 	checkRejectedCalls(c)
+	checkOwnershipStateless(c)
 	perType := c.Pick(600, 6000)
 	big := c.Pick(700, 2500)
 	const maxOps = 12
@@ -303,6 +327,7 @@ func checkHistory(c *vrt.Ctx) {
 		}
 		nops := r.Range(3, maxOps)
 		trail := fmt.Sprintf("New(%d)", prev)
+		led := newLedger(r)
 		for op := 0; op < nops; op++ {
 			if prev == 0 || r.Chance(0.45) {
 				n := histLen(r, t.minN, big)
@@ -332,6 +357,7 @@ func checkHistory(c *vrt.Ctx) {
 					return
 				}
 				trail += fmt.Sprintf(" Reset(%d)", n)
+				led.verify(c, t.name, trail)
 				prev = n
 				continue
 			}
@@ -340,7 +366,7 @@ func checkHistory(c *vrt.Ctx) {
 				// a documented rejection, recovered, in the middle of the history
 				rjs := rejectionsFor(t.name, obj, n)
 				rj := rjs[r.Intn(len(rjs))]
-				if !applyRejection(c, t, obj, n, rj, r, trail) {
+				if !applyRejection(c, t, obj, n, rj, r, trail, led) {
 					return
 				}
 				trail += " [rejected " + rj.name + "]"
@@ -352,7 +378,7 @@ func checkHistory(c *vrt.Ctx) {
 				mode = dstFresh
 			}
 			raw := r.Floats(2*n+2, r.Norm)
-			histCompare(c, t, m, obj, n, raw, mode, trail)
+			histCompare(c, t, m, obj, n, raw, mode, trail, led)
 			trail += " " + m.name
 			if op == nops-1 && h < 3 && c.WantSample() {
 				c.Sample(map[string]any{"check": "history", "type": t.name, "history": trail, "last_dst": dstNames[mode]})
@@ -366,9 +392,12 @@ func checkHistory(c *vrt.Ctx) {
 
 // histCompare runs method m on obj (which has a history, described by trail)
 // and on a fresh object of the same length, and demands identical bits.
-func histCompare(c *vrt.Ctx, t histType, m histMethod, obj any, n int, raw []float64, mode int, trail string) {
+func histCompare(c *vrt.Ctx, t histType, m histMethod, obj any, n int, raw []float64, mode int, trail string, led *ledger) {
 	c.LastCase(fmt.Sprintf("history %s %s %s(dst=%s)", t.name, trail, m.name, dstNames[mode]))
 	got := m.call(obj, n, raw, mode)
+	led.shares(c, m.name, dstNames[mode], trail, &got)
+	led.verify(c, t.name, trail+" "+m.name)
+	led.admit(c, m.name, dstNames[mode], trail, &got)
 	want := m.call(t.fresh(n), n, raw, dstNil)
 	c.EvalN("history|"+m.name+"|dst="+dstNames[mode]+"|"+pathClass(n), 2, n > 1)
 	rep := map[string]any{"trail": trail, "n": n, "dst": dstNames[mode], "input": trimF(raw[:min(len(raw), 2*n)])}
@@ -439,13 +468,14 @@ func checkStructuredHistories(c *vrt.Ctx) {
 			}
 			obj := t.fresh(n)
 			trail := fmt.Sprintf("New(%d)", n)
+			led := newLedger(r)
 			stop := func(len_ int) bool {
 				for _, meth := range t.methods {
 					mode := r.Intn(3)
 					if mode == dstSrc && !meth.aliasOK {
 						mode = dstNil
 					}
-					histCompare(c, t, meth, obj, len_, r.Floats(2*len_+2, r.Norm), mode, trail)
+					histCompare(c, t, meth, obj, len_, r.Floats(2*len_+2, r.Norm), mode, trail, led)
 					trail += " " + meth.name
 				}
 				return true
@@ -459,6 +489,7 @@ func checkStructuredHistories(c *vrt.Ctx) {
 				}
 				c.Eval("history|"+t.name+".Reset|return-trip", true)
 				trail += fmt.Sprintf(" Reset(%d)", next)
+				led.verify(c, t.name, trail)
 				if got := t.length(obj); got != next {
 					c.Violationf(t.name+".Len|history|wrong-length", map[string]any{"trail": trail, "n": next, "len": got},
 						"%s after %s: Len() = %d", t.name, trail, got)
